@@ -138,10 +138,9 @@ def pname_coq(s, table):
     return "PStr %d" % table.setdefault(s, len(table))
 
 
-HOOKS = {  # type-preserving invertible per-field rules
-    "int": (lambda v: v ^ 1, lambda v: v ^ 1),
-    "bytes": (lambda v: v[::-1], lambda v: v[::-1]),
-    "str": (lambda v: v.upper(), lambda v: v),
+HOOKS = {  # per-field rules: (fix_pack, fix_unpack, field value from a generated wire value); the wire value may be falsy
+    "int": (lambda v: v - 1, lambda v: v + 1, lambda w: w + 1),
+    "bytes": (lambda v: v[:-1], lambda v: v + b"!", lambda w: w + b"!"),
 }
 
 
@@ -243,9 +242,11 @@ def run(ctx):
                     kinds.append("bytes")
                 else:
                     kinds.append("other")
+            d.hook_kinds = {}
             for n, k in zip(d.names, kinds):
-                if k in ("bytes",) and r.random() < 0.4:
-                    d.hooks[n] = HOOKS[k] if r.random() < 0.7 else (HOOKS[k][0], None)
+                if k in ("bytes", "int") and r.random() < 0.4:
+                    d.hooks[n] = HOOKS[k][:2]
+                    d.hook_kinds[n] = k
             if d.hooks:
                 cls = d.build_plain(False)
         # defaults on a random suffix of the names (for the generator comparison)
@@ -339,6 +340,12 @@ def run(ctx):
                     args.extend(v)
                 else:
                     args.append(v)
+            # hooked fields: the constructor argument is the field value whose wire value was generated (often falsy: 0, b"")
+            for j, n in enumerate(d.names):
+                hk = getattr(d, "hook_kinds", {}).get(n)
+                if hk:
+                    w = args[j] if r.random() < 0.6 else (0 if hk == "int" else b"")
+                    args[j] = HOOKS[hk][2](w)
             case = {"kind": "behaviour", "formats": [str(f) for f in d.formats], "names": d.names, "args": repr(args)[:600],
                     "hooks": sorted(d.hooks)}
             ctx.count(("beh", d.label, repr(args)[:300]), nontrivial=True)
